@@ -472,7 +472,11 @@ var guardedFieldExempt = map[string]string{
 var externallyLocked = map[string]bool{"internal/model/core.Transaction": true, "internal/model/core.file": true}
 
 // lifecycle fields handled by C15.d
-var lifecycleFields = map[string]bool{"internal/utils/wpool.Pool.ctx": true, "internal/utils/wpool.Pool.cancel": true, "internal/utils/wpool.Pool.ch": true}
+// lifecycleFields: the pool's context, cancel function and job channel (by role, see roles.go)
+func isLifecycleField(k string) bool {
+	const pre = "internal/utils/wpool.Pool."
+	return k == pre+poolFields.Ctx || k == pre+poolFields.Cancel || k == pre+poolFields.Ch
+}
 
 func isSyncType(t types.Type) bool {
 	s := t.String()
@@ -497,7 +501,7 @@ func c15GuardedFields(p *Prog, r *Report) int {
 		if !ok {
 			continue
 		}
-		name := stripTypeArgs(shorten(nt.String()))
+		name := canonTypeName(stripTypeArgs(shorten(nt.String())))
 		if externallyLocked[name] {
 			continue
 		}
@@ -578,7 +582,7 @@ func c15GuardedFields(p *Prog, r *Report) int {
 				if fv == nil || !c15FieldOf(o.st, fv) || !written[fv.Name()] || isSyncType(fv.Type()) {
 					continue
 				}
-				if lifecycleFields[tname+"."+fv.Name()] {
+				if isLifecycleField(tname + "." + fv.Name()) {
 					continue
 				}
 				// is the access a mutating method call on the field? then it is a write
@@ -622,7 +626,7 @@ func c15GuardedFields(p *Prog, r *Report) int {
 					continue
 				}
 				fv, ok := fi.Pkg.TypesInfo.Uses[inner.Sel].(*types.Var)
-				if !ok || !c15FieldOf(o.st, fv) || !written[fv.Name()] || isSyncType(fv.Type()) || lifecycleFields[tname+"."+fv.Name()] {
+				if !ok || !c15FieldOf(o.st, fv) || !written[fv.Name()] || isSyncType(fv.Type()) || isLifecycleField(tname+"."+fv.Name()) {
 					continue
 				}
 				if !(mutatingMethods[sel.Sel.Name] || strings.HasPrefix(sel.Sel.Name, "Push") || strings.HasPrefix(sel.Sel.Name, "Pop") || sel.Sel.Name == "Clear") {
@@ -653,7 +657,12 @@ func c15GuardedFields(p *Prog, r *Report) int {
 				if strings.HasPrefix(fi.Obj.Name(), "New") {
 					continue
 				}
-				if why, ok := guardedFieldExempt[cons]; ok && ev.Stray {
+				// exemptions are written with the pinned field names; a renamed field is recognised by its role
+				exKey := cons
+				if fi.Decl.Recv != nil {
+					exKey = fi.Key + "#" + canonFieldName(fi.Sig().Recv().Type(), fname)
+				}
+				if why, ok := guardedFieldExempt[exKey]; ok && ev.Stray {
 					r.Exempt("C15.c", cons, p.pos(ev.Node), why)
 					continue
 				}
@@ -700,7 +709,7 @@ func c15Lifecycle(p *Prog, r *Report) {
 				if !ok || !fv.IsField() {
 					continue
 				}
-				if !lifecycleFields[pkgWpool+".Pool."+fv.Name()] {
+				if !isLifecycleField(pkgWpool + ".Pool." + fv.Name()) {
 					continue
 				}
 				if tv, ok := info.Types[sel.X]; !ok || !strings.HasSuffix(tv.Type.String(), "wpool.Pool") {
